@@ -33,10 +33,13 @@ META = dict(
 def track(env, topo, perm, box, cm, guess_pn, nframes=2, guess_target=None, still_last=False):
     import forsys as fs
     spec0 = catalogue(topo, n_spoke=2, n_border=2)
+    # tracked points = end points of the interfaces forsys itself finds (in sub-tissues some line ends are interior points)
+    _b = tissue.build(spec0.copy(), fs)
+    _f = fs.frames.Frame(0, _b.vertices, _b.edges, _b.cells, time=0.0)
     ends = set()
-    for ln, pts in spec0.lines.items():
-        ends.add(pts[0])
-        ends.add(pts[-1])
+    for e in _f.big_edges_list:
+        ends.add(_b.point_of[e[0]])
+        ends.add(_b.point_of[e[-1]])
     xs = [p[0] for p in spec0.points.values()]
     ys = [p[1] for p in spec0.points.values()]
     extent = max(max(xs) - min(xs), max(ys) - min(ys))
